@@ -153,9 +153,15 @@ def restart_overlay_remove(rng):
         ops_.append(_apply(0, [rng.choice(pool + ['n:bold', 'n:italic'])], rng.randrange(0, p), None, top=True))
     e = None if rng.random() < 0.4 else rng.randint(p + 1, n)
     ops_.append(_apply(0, [under], p, e, top=False))
+    starts = [p]
+    if n >= 4 and rng.random() < 0.4:
+        # a second stop/restart index made by the same setting (one removal call then handles both)
+        p2 = rng.choice([i for i in range(1, n) if i != p])
+        ops_.append(_apply(0, [under], p2, None if rng.random() < 0.5 else rng.randint(p2 + 1, n), top=False))
+        starts.append(p2)
     for _ in range(rng.choice([1, 2, 2, 3])):
-        a = rng.randrange(0, p + 1)
-        b = None if rng.random() < 0.5 else rng.randint(p + 1, n) if p + 1 <= n else None
+        a = rng.choice(starts) if rng.random() < 0.4 else rng.randrange(0, p + 1)
+        b = None if (rng.random() < 0.5 or a + 1 > n) else rng.randint(max(a, p) + 1, n) if max(a, p) + 1 <= n else None
         ops_.append(_apply(0, [rng.choice(pool)], a, b, top=rng.random() < 0.85))
     ra, rb = (0, None) if rng.random() < 0.5 else (rng.randrange(0, p + 1), rng.randint(p, n))
     ops_.append({'op': 'remove', 'r': 0, 'd': 0, 'ip': rng.random() < 0.7, 'st': [under], 'a': ra, 'b': rb})
@@ -163,7 +169,8 @@ def restart_overlay_remove(rng):
 
 
 SAME_FORMS = [['f:red'], ['n:red'], [['f:red']], ['f:bold'], [['n:bold']], ['f:dul_orange'], ['h:rgb(1,2,3)'], ['r:rgb(1,2,3)'],
-              {'tuple': ['f:blue']}, ['i:31'], ['l:38,5,200'], ['f:bg_red']]
+              {'tuple': ['f:blue']}, ['i:31'], ['l:38,5,200'], ['f:bg_red'], ['a:1'], ['a:34'], 'a:1', ['v:31'], ['a:38;5;200'],
+              ['v:01'], ['s:01']]
 
 
 def nested_equal_spans_then_remove(rng):
